@@ -122,10 +122,17 @@ pub fn run(prop: Prop, s: &Scn) -> RunOut {
     }
 }
 
-pub fn shrink_candidates(s: &Scn) -> Vec<Scn> {
+/// Candidates (big structural cuts first) and the index where pure content shrinking starts
+pub fn shrink_candidates(s: &Scn) -> (Vec<Scn>, usize) {
     match s {
-        Scn::C11(s) => c11::shrink_candidates(s).into_iter().map(Scn::C11).collect(),
-        Scn::Hist(s) => hist::shrink_candidates(s).into_iter().map(Scn::Hist).collect(),
+        Scn::C11(s) => {
+            let (v, b) = c11::shrink_candidates(s);
+            (v.into_iter().map(Scn::C11).collect(), b)
+        }
+        Scn::Hist(s) => {
+            let (v, b) = hist::shrink_candidates(s);
+            (v.into_iter().map(Scn::Hist).collect(), b)
+        }
     }
 }
 
